@@ -697,7 +697,7 @@ impl<'a> GeneratorState<'a> {
                     if !high_byte {
                         if let ExprType::Absolute(varname, eight_bits, _) = &left {
                             let v = self.compiler_state.get_variable(varname);
-                            if v.var_type == VariableType::Short && !eight_bits {
+                            if (v.var_type == VariableType::Short || v.var_type == VariableType::ShortPtr) && !eight_bits {
                                 if let ExprType::Immediate(value) = right {
                                     if value < 8 {
                                         return self.generate_shift_16bits(&left, op, &right, pos);
